@@ -58,6 +58,12 @@ const c16ScanResidual = "de58fec0"
 
 func runC16(c *core.Check) {
 	prog := c.Load("./scanner", "go/scanner")
+	scannerAgreement(c, prog, true)
+}
+
+// scannerAgreement: the rules that establish XGo's scanner tokenises Go lexemes like go/scanner (shared by C14 and C16).
+// withPositions adds the rule about the position of the semicolon implied at a comment (a position, not a token-stream, matter).
+func scannerAgreement(c *core.Check, prog *core.Prog, withPositions bool) {
 	x, g := prog.Pkg("./scanner"), prog.Pkg("go/scanner")
 	if x == nil || g == nil {
 		return
@@ -173,7 +179,7 @@ func runC16(c *core.Check) {
 
 	// ---------- position of the semicolon inserted at a comment that contains/precedes a newline
 	gs0, xs0 := prog.NamedType("go/scanner", "Scanner"), prog.NamedType("./scanner", "Scanner")
-	if gs0 != nil && xs0 != nil {
+	if withPositions && gs0 != nil && xs0 != nil {
 		refHas, xHas := fieldVar(gs0, "nlPos") != nil, fieldVar(xs0, "nlPos") != nil
 		if refHas {
 			c.Decide(xHas, "semicolon-position", "comment-before-newline", xt.ArmPos["/"], "same nlPos mechanism as the reference",
